@@ -15,10 +15,15 @@
 (* change; TLC must REJECT them (sanity configurations):                    *)
 (*   MemoFinalOnly      visited-set consulted only for the last component   *)
 (*   DedupeNeighbour    dedupePaths compares with the previously kept only  *)
+(*   LexicalClean       request, link name and joined path cleaned as       *)
+(*                      strings (a ".." after a symlink component then      *)
+(*                      leaves the LINK's directory): rejected in the       *)
+(*                      thorough scope, which has a target a/../b           *)
 (***************************************************************************)
 EXTENDS FollowRef, SequencesExt, FiniteSets, TLC, Json, IOUtils
 CONSTANTS Scope,            \* "quick" | "thorough" | "dedupe"
-          MemoFinalOnly, DedupeNeighbour, MaxSteps
+          MemoFinalOnly, DedupeNeighbour, MaxSteps,
+          LexicalClean       \* TRUE: the pinned resolver, which cleaned request, link name and joined path as STRINGS
 
 A == <<97>>
 B == <<98>>
@@ -68,9 +73,12 @@ CleanAbs(acc, cs) == IF cs = <<>> THEN acc
 
 \* readSymlink(current): nil, or the one absolute target (as components from the root)
 IsLink(q) == q \in TreeDom /\ Slot(q).t = "symlink"
+\* the target as readSymlink hands it back: absolute, NOT cleaned (the components of the link's directory, which is free of
+\* links, followed by the components of the link name as they are; "." / ".." / "" are dealt with by the loop)
 TargetOf(q) == LET raw == Slot(q).lnb
                    abs == Len(raw) > 0 /\ raw[1] = S
-               IN CleanAbs(<<>>, (IF abs THEN <<>> ELSE Parent(q)) \o Split(raw))
+                   comps == (IF abs THEN <<>> ELSE Parent(q)) \o Split(raw)
+               IN IF LexicalClean THEN CleanAbs(<<>>, comps) ELSE comps
 
 Init == /\ sa \in Leafs \cup {Dir} /\ sb \in Leafs \cup {Dir}
         /\ sdash \in (IF Scope = "dedupe" THEN {Absent, File} ELSE {Absent})
@@ -80,26 +88,31 @@ Init == /\ sa \in Leafs \cup {Dir} /\ sb \in Leafs \cup {Dir}
         /\ reqs \in ReqLists
         /\ ri = 1 /\ phase = "req" /\ p = <<>> /\ cur = <<>> /\ resolved = {} /\ steps = 0
 
-\* FollowLinks: for _, p := range paths { r.append(p) };   p = filepath.Join(".", p); current := "."
+\* FollowLinks: for _, p := range paths { r.append(p) };   current := "."
 StartReq == /\ phase = "req" /\ ri <= Len(reqs)
-            /\ p' = CleanAbs(<<>>, reqs[ri]) /\ cur' = <<>> /\ phase' = "iter"
+            /\ p' = (IF LexicalClean THEN CleanAbs(<<>>, reqs[ri]) ELSE reqs[ri]) /\ cur' = <<>> /\ phase' = "iter"
             /\ UNCHANGED <<sa, sb, saa, sab, sba, sdash, reqs, ri, resolved, steps>>
 
 Return == /\ phase' = "req" /\ ri' = ri + 1 /\ p' = <<>> /\ cur' = <<>>
 
-\* one iteration of the for loop in append
+\* one iteration of the for loop in append: the path is walked one component at a time; "" and "." add nothing, ".." is applied
+\* to the location reached so far (which is free of links), anything else is looked up
 Iterate ==
   /\ phase = "iter"
   /\ steps' = steps + 1
   /\ UNCHANGED <<sa, sb, saa, sab, sba, sdash, reqs>>
-  /\ LET c1 == IF p = <<>> THEN cur ELSE Append(cur, Head(p))      \* parts[0] is "." for an empty path
+  /\ LET c == IF p = <<>> THEN <<>> ELSE Head(p)
          rest == IF p = <<>> THEN <<>> ELSE Tail(p)
-         link == IsLink(c1)
+         plain == c # <<>> /\ c # DotN /\ c # DotDotN
+         c1 == IF plain THEN Append(cur, c)
+               ELSE IF c = DotDotN THEN (IF cur = <<>> THEN <<>> ELSE Parent(cur))
+               ELSE cur
+         link == plain /\ IsLink(c1)
          consult == IF MemoFinalOnly THEN rest = <<>> ELSE (rest = <<>> \/ link)
      IN IF consult /\ c1 \in resolved
         THEN Return /\ UNCHANGED resolved
         ELSE IF link
-        THEN \* r.resolved[current] = {}; r.append(filepath.Join(target, p)); return nil
+        THEN \* r.resolved[current] = {}; r.append(target + "/" + p); return nil
              /\ resolved' = resolved \cup {c1}
              /\ p' = TargetOf(c1) \o rest /\ cur' = <<>> /\ UNCHANGED <<phase, ri>>
         ELSE IF rest = <<>>
@@ -128,17 +141,8 @@ Result == IF IsNil THEN <<>>
 \* termination: every run of append over this universe finishes within MaxSteps loop iterations
 Terminates == steps <= MaxSteps
 Allowed == {"rootReachedButListNotEmpty/explainedByLinkMemoisation", "traversedSymlinkNotCovered/explainedByLinkMemoisation",
-            "finalLocationNotCovered/explainedByLinkMemoisation",
-            \* the second recorded finding (lexical ".." after a component that is a symlink; thorough scope only: it needs
-            \* a target like a/../b)
-            "rootReachedButListNotEmpty/explainedByLexicalDotDot", "traversedSymlinkNotCovered/explainedByLexicalDotDot",
-            "finalLocationNotCovered/explainedByLexicalDotDot", "emptyListAlthoughRootNotReached/explainedByLexicalDotDot"}
+            "finalLocationNotCovered/explainedByLinkMemoisation"}
 Judged == FollowClauses(T, reqs, Result, IsNil, TRUE)
-\* non-vacuity of the second explanation (must be violated in the thorough scope: configuration _lexwitness)
-NeverLexExplained == phase = "done" => ~\E c \in Judged : c \in {"finalLocationNotCovered/explainedByLexicalDotDot",
-                                                                   "emptyListAlthoughRootNotReached/explainedByLexicalDotDot",
-                                                                   "traversedSymlinkNotCovered/explainedByLexicalDotDot",
-                                                                   "rootReachedButListNotEmpty/explainedByLexicalDotDot"}
 \* the result satisfies the property layer, up to the recorded known finding (link memoisation)
 ResultOK == phase = "done" => Judged \subseteq Allowed
 \* non-vacuity witnesses (checked as "must be violated" in a separate config)
